@@ -57,7 +57,7 @@ func TestC06(t *testing.T) {
 		pr   imps.Profile
 	}{
 		{"local", imps.Profile{MaxPaths: 5, LocalCtor: true, Dots: 2, Std: true, Anon: true}},
-		{"dots", imps.Profile{MaxPaths: 8, Dots: 6, Std: true, Compete: true, Anon: true}},
+		{"dots", imps.Profile{MaxPaths: 8, Dots: 6, Std: true, Compete: true, Anon: true, ArbPaths: true}},
 		{"localdots", imps.Profile{MaxPaths: 8, LocalCtor: true, Dots: 6, Compete: true, ReservedMix: true}},
 	}
 	for _, p := range profiles {
